@@ -107,6 +107,8 @@ run_tool(const char *in, size_t len, const int *chunks, int nchunks, struct fs_r
 	++*c_eval;
 }
 
+#include "c18_families.h"
+
 /* skeleton of a line: without [0-9:T-] and without blanks between two digits */
 static size_t
 skel(char *out, const char *s, size_t n)
@@ -450,6 +452,17 @@ main(int argc, char *argv[])
 	}
 
 	if (ex.cas) {
+		{
+			int fi, vi, ti, pi, si, nl, c[3] = {0, 0, 0}, nc;
+			if ((nc = sscanf(ex.cas, "fam %d %d %d %d %d %d %d %d %d", &fi, &vi, &ti, &pi, &si, &nl, c, c + 1, c + 2)) >= 6 && fi >= 0 && fi < NFAM) {
+				int nch = nc - 6;
+				while (nch > 0 && c[nch - 1] == 0) {
+					nch--;
+				}
+				fam_stream(fi, vi, ti, pi, si, nl, 0, 1, c, nch);
+				return ex_replay_result(ex.nviol != 0, "%s", ex.nviol ? ex.viol[0].key : "no violation");
+			}
+		}
 		/* "<token letters> <read size> ..." */
 		int t[MAXTOK], nt = 0, ch[MAXS], nch = 0;
 		const char *p = ex.cas;
@@ -520,6 +533,13 @@ main(int argc, char *argv[])
 			}
 		}
 	}
+	/* structured families with an exact oracle (c18_families.h) */
+	ex_meta("families", "prefix x value x tail x suffix x {final newline, none}, all combinations, one read + every composition with <= %d cuts; expected = prefix, "
+		"argument-mode result of the value under the same -i/-f, tail copied (second value: its result), suffix; a zone-like tail may instead be taken into the "
+		"value (argument-mode result of value+tail). Families: tails (malformed minute/second/fraction and short zone offsets behind date, date-HM, date-HMS, HMS, HM), "
+		"padded-dmy/-dth/-hm (1-digit fields under -i %%d/%%m/%%Y, %%dth %%B %%Y, %%H:%%M behind blank, letters, digit+blank), epoch (-i %%s, 1..11 digits), epoch-comma (-i %%s, with the comma as needle), compact "
+		"(-i %%Y%%m%%d behind other digit runs), two-formats (-i %%Y%%m%%d -i %%d/%%m/%%Y, two values per line)", ex.thorough ? 2 : 1);
+	fam_all();
 	/* second alphabet: streams of up to 4 tokens over {date, xx, NUL, 0x01, 0xff, blank, \n} with at
 	 * least one of the three byte tokens (the others are in the first enumeration) */
 	{
